@@ -1,7 +1,7 @@
 from __future__ import annotations
 
-import codecs
 import configparser
+import io
 import os.path
 import re
 import shelve
@@ -353,8 +353,10 @@ class VFSZip(VFS_Real):
         # zip.open() will only return the file object in bytes mode
         fp = self.zip.open(item)
         if mode == "r":
-            # Attempted to read in "text mode", so decode the bytestream
-            fp = codecs.getreader("utf-8")(fp, errors=errors)
+            # Attempted to read in "text mode", so decode the bytestream the
+            # way open() does for a real file (a codecs.StreamReader would
+            # also end lines at \x0b, \x0c, \x1c-\x1e, \x85 and U+2028/9).
+            fp = io.TextIOWrapper(fp, encoding="utf-8", errors=errors)
 
         return fp
 
